@@ -42,6 +42,11 @@ func (w Work) MarshalText() ([]byte, error) {
 
 // UnmarshalText implements encoding.TextUnmarshaler.
 func (w *Work) UnmarshalText(b []byte) error {
+	// a 256-bit value never needs more than a few hundred characters; parsing
+	// cost grows faster than linearly with the number of digits
+	if len(b) > 1024 {
+		return errors.New("value overflows Work representation")
+	}
 	i := new(big.Int)
 	if err := i.UnmarshalText(b); err != nil {
 		return err
